@@ -111,18 +111,30 @@ theorem discardFreelist_fb (c : Cfg) (b : Bool) (s : St) (fuel : Nat) :
   unfold discardFreelist
   simp only [discardLoop_fb]
 
-theorem cstep_fb (c : Cfg) (b : Bool) (fuel : Nat) (x : CSess) (op : COp) :
+theorem clear_fb (c : Cfg) (b : Bool) (s : St) : clear { c with fileBacked := b } s = clear c s := rfl
+
+/-- only `truncate` consults the backend -/
+theorem cstep_fb (c : Cfg) (b : Bool) (fuel : Nat) (x : CSess) (op : COp) (hnt : op.isTruncate = false) :
     cstep { c with fileBacked := b } fuel x op = cstep c fuel x op := by
   cases op with
   | fill i v => rfl
   | op o =>
-    cases o <;> simp only [cstep, allocBytes_fb, allocAligned_fb, allocT_fb, dealloc_fb, discardFreelist_fb] <;> rfl
+    cases o
+    case truncate n => simp [COp.isTruncate] at hnt
+    all_goals
+      simp only [cstep, allocBytes_fb, allocAligned_fb, allocT_fb, dealloc_fb, discardFreelist_fb, clear_fb] <;> rfl
 
 theorem crun_fb (c : Cfg) (b : Bool) (fuel : Nat) : ∀ (ops : List COp) (x : CSess),
+    (∀ op ∈ ops, op.isTruncate = false) →
     crun { c with fileBacked := b } fuel x ops = crun c fuel x ops
-  | [], _ => rfl
-  | op :: ops, x => by
-    simp only [crun, cstep_fb, crun_fb c b fuel ops]
+  | [], _, _ => rfl
+  | op :: ops, x, hnt => by
+    simp only [crun, cstep_fb c b fuel x op (hnt op (List.mem_cons_self ..))]
+    cases cstep c fuel x op with
+    | error e => rfl
+    | ok x1 =>
+      simp only [bind, Except.bind]
+      exact crun_fb c b fuel ops x1 (fun o ho => hnt o (List.mem_cons_of_mem _ ho))
 
 
 theorem slow_nil (c : Cfg) (a : A) (n : Nat) (hro : c.ro = false) (hf : a.free = []) :
@@ -170,22 +182,28 @@ theorem reserved_lt (o : Opts) : o.reserved < o.cfg.dataOffset := by
   rw [data_offset_formula]
   split <;> omega
 
+-- CHANGED (histories now contain `truncate`): hypothesis `hfits` added (`truncate` only for the unsync flavour and
+-- only up to the capacity the traversal fuel covers, see `COp.fits`).
 /-- no history writes the reserved prefix (nor the sanity bytes / header area): `[0, data_offset)` -/
 theorem reserved_untouched (o : Opts) (g : Guards o) (fuel : Nat) (hfuel : o.cap + 2 ≤ fuel) (s : St)
-    (hs : o.init = some s) (ops : List COp) (hops : ∀ op ∈ ops, COp.ok op) :
+    (hs : o.init = some s) (ops : List COp) (hops : ∀ op ∈ ops, COp.ok op)
+    (hfits : ∀ op ∈ ops, COp.fits o.cfg fuel op) :
     ∃ x, crun o.cfg fuel (CSess.start s) ops = .ok x ∧
       ∀ i, i < o.reserved → x.st.mem.rd i = s.mem.rd i := by
   have r := sim_init o s hs g.cap g.minSeg g.retries
   have hcap : s.cap = o.cap := congrArg A.cap r.abs
-  obtain ⟨x, _, e, _, _, hpre⟩ := sim_run o.cfg _ _ [] ops fuel r rfl hops (by show s.cap + 2 ≤ fuel; omega)
+  obtain ⟨x, _, e, _, _, hpre⟩ := sim_run o.cfg _ _ [] ops fuel r rfl hops hfits (by show s.cap + 2 ≤ fuel; omega)
   refine ⟨x, e, fun i hi => hpre i ?_⟩
   have := reserved_lt o
   omega
 
+-- CHANGED (histories now contain `truncate`, the one call that consults the backend: a file-backed arena keeps the
+-- in-file bytes above the cursor, the others zero them): hypothesis `hnt` added.
 /-- with the unified layout the memory image does not depend on the backing store: the Vec-, anon- and
-    file-backed arenas with otherwise equal options start from the same bytes and every history produces the
-    same state (the backend is not consulted by any operation of a history) -/
-theorem unified_images_equal (o : Opts) (hu : o.unify = true) (fuel : Nat) (ops : List COp) (file anon : Bool) :
+    file-backed arenas with otherwise equal options start from the same bytes and every history without
+    `truncate` produces the same state (the backend is not consulted by any other operation of a history) -/
+theorem unified_images_equal (o : Opts) (hu : o.unify = true) (fuel : Nat) (ops : List COp) (file anon : Bool)
+    (hnt : ∀ op ∈ ops, op.isTruncate = false) :
     let o' : Opts := { o with file := file, anon := anon }
     o'.init = o.init ∧
     ∀ s, (crun o'.cfg fuel (CSess.start s) ops).map (fun x => (x.st.image o'.cfg, x.held, x.st.allocated, x.st.discarded)) =
@@ -196,13 +214,15 @@ theorem unified_images_equal (o : Opts) (hu : o.unify = true) (fuel : Nat) (ops 
   refine ⟨?_, ?_⟩
   · simp [o', Opts.init, Opts.dataOffset, Opts.unified, hu]
   · intro s
-    rw [hcfg, crun_fb]
+    rw [hcfg, crun_fb _ _ _ _ _ hnt]
     rfl
 
+-- CHANGED (histories now contain `truncate`, which changes the capacity): the capacity is the configured one for
+-- the sync flavour (no `truncate`); in general it is the capacity of the abstract history state (`Rel.abs`).
 /-- `remaining() = capacity() - allocated()` with `allocated() ≤ capacity()` in every reachable state -/
 theorem remaining_eq (o : Opts) (g : Guards o) (fuel : Nat) (hfuel : o.cap + 2 ≤ fuel) (x : CSess)
-    (hr : Reachable o fuel x) : x.st.allocated ≤ x.st.cap ∧ x.st.cap = o.cap := by
-  obtain ⟨h, free, hrel, hcap⟩ := reachable_rel o g fuel hfuel x hr
+    (hr : Reachable o fuel x) : x.st.allocated ≤ x.st.cap ∧ (o.sync = true → x.st.cap = o.cap) := by
+  obtain ⟨h, free, hrel, _, hcap⟩ := reachable_rel o g fuel hfuel x hr
   exact ⟨hrel.cinv.wf.hi, hcap⟩
 
 end Rarena.C16
